@@ -136,10 +136,10 @@ macro_rules! impl_observer {
       #[inline]
       fn error(self, _: Err) {}
 
+      // A notifier that completes without emitting never opens the gate:
+      // items are discarded until the notifier *emits* an item.
       #[inline]
-      fn complete(self) {
-        self.0.stop_skipping()
-      }
+      fn complete(self) {}
 
       #[inline]
       fn is_finished(&self) -> bool {
